@@ -410,6 +410,30 @@ def d4_lineage(chk, F):
             te, fe = call_result_edges(f, isdef[0][0])
             ok = any(f.edge_dominates(e, pushes[0]) for e in te) and not any(f.edge_dominates(e, pushes[0]) for e in fe)
             # the non-definition outcome continues the loop without pushing: trivially true if dominated by te
+        if not ok and not pushes:
+            # iterator form: the returned collection is collect(..filter(|x| x.relation.is_definition())..) over the component table
+            import c09
+            from flow import walk as _walk
+            try:
+                re_ = c09.return_expr(f)
+            except Exception:
+                re_ = None
+            if re_ is not None and re_[0] == "call" and re_[1].endswith("Iterator::collect"):
+                filt = [n for n in _walk(re_) if n[0] == "call" and n[1].endswith("Iterator::filter")]
+                okf = False
+                for n in filt:
+                    cl = [m for a in n[2] for m in _walk(a) if m[0] == "agg" and m[1] == "closure"]
+                    for m in cl:
+                        g = F.funcs.get(m[2])
+                        if g is None:
+                            continue
+                        ge = c09.return_expr(g)
+                        # the predicate IS is_definition(..) (not its negation, no other condition)
+                        if ge[0] == "call" and ge[1].endswith("is_definition"):
+                            okf = True
+                others = [n[1].rsplit("::", 1)[-1] for n in _walk(re_) if n[0] == "call" and n[1].rsplit("::", 1)[-1] in
+                          ("skip", "take", "step_by", "rev", "skip_while", "take_while", "filter_map", "dedup", "chain")]
+                ok = okf and len(filt) == 1 and not others
         chk.expect(ok, "C10.D4-lineage", fname, f"{f.file}:{f.line}",
                    f"{fname} must list exactly the components whose relation is a definition (push under is_definition() == true)",
                    sample=f"{f.file}:{f.line}: push under relation.is_definition()")
